@@ -342,4 +342,13 @@ def main(argv):
 
 
 if __name__ == "__main__":
-    sys.exit(main(sys.argv[1:]))
+    try:
+        rc = main(sys.argv[1:])
+        sys.stdout.flush()
+    except BrokenPipeError:
+        rc = 2
+        try:
+            sys.stdout.close()
+        except Exception:
+            pass
+    sys.exit(rc)
